@@ -265,15 +265,15 @@ Definition insert_at_frontier (c : cstate) (its : list item) (start : Z) (f0 : f
   end.
 
 (* ---- clear_operations_touching ---- *)
+Definition clear_step (qubits : list Z) (acc : list moment) (k : Z) : list moment :=
+  if (0 <=? k) && (k <? Z.of_nat (length acc)) then
+    match nth_error acc (Z.to_nat k) with
+    | Some m => replace_nth (Z.to_nat k) (without_touching m qubits) acc
+    | None => acc
+    end
+  else acc.
 Definition clear_touching (c : cstate) (qubits : list Z) (idxs : list Z) : cstate * (Z + err) :=
-  let ms := fold_left (fun acc k =>
-                         if (0 <=? k) && (k <? Z.of_nat (length acc)) then
-                           match nth_error acc (Z.to_nat k) with
-                           | Some m => replace_nth (Z.to_nat k) (without_touching m qubits) acc
-                           | None => acc
-                           end
-                         else acc) idxs (moms c) in
-  (mutated false (mkc ms (cache c) (sm c)), inl 0).
+  (mutated false (mkc (fold_left (clear_step qubits) idxs (moms c)) (cache c) (sm c)), inl 0).
 
 (* ---- algebra: results are new circuits ---- *)
 Fixpoint repeat_list {A} (n : nat) (l : list A) : list A :=
